@@ -194,3 +194,25 @@ func VerifHarness_C04_Cached() {
 		verifReach("nonempty")
 	}
 }
+
+// the pipeline gate looks at the command as it is now (an entry edited in place after the
+// index was built keeps its postings but may have stopped being a pipeline)
+func VerifHarness_C04_EditedInPlace() {
+	db := c04DB(false)
+	k := 4 // "aa | ee", flagged as pipeline
+	if verifBool("dropFlag") {
+		db.Commands[k].Pipeline = false
+	}
+	if verifBool("dropPipe") {
+		db.Commands[k].Command = "aa ee"
+		vFill(&db.Commands[k])
+	}
+	o := c04Options()
+	o.UseNLP = verifBool("nlp")
+	res := db.SearchUniversal("aa", o)
+	c04Check(db, res, o, "entry edited in place")
+	verifReach("checked")
+	if len(res) > 0 {
+		verifReach("nonempty")
+	}
+}
